@@ -46,3 +46,14 @@ func VerifVecCacheRefs(seg segment.Segment, field string) (refs int64, present b
 	}
 	return atomic.LoadInt64(&entry.refs), true
 }
+
+// VerifVecCacheGate, when set, is called by a cache lookup that missed under the
+// read lock, after that lock has been released and before the write lock is
+// requested (a scheduling point for replaying interleavings of searchers).
+var VerifVecCacheGate func()
+
+func verifVecCacheGate() {
+	if g := VerifVecCacheGate; g != nil {
+		g()
+	}
+}
